@@ -58,13 +58,13 @@ CLAIMED.update({
             "semantics -- for every spine formula of depth <= 2 over {a,b,X} (1.0 M formulas, every node kind, binders, shadowing, counting, "
             "fixed points); every depth <= 1 formula and a sample of depth 2 is rendered (random operator spellings, whitespace, comments, "
             "stray characters, with/without an explicit ordering) and evaluated by the real solver, truth table compared by variable name, "
-            "is_true/is_false compared; random deep formulas (<= 6 names, monotone fixed points, families of 2-3 nested fixed points with alternation, shadowing and self-supporting bodies) are parsed and evaluated by the real code and "
+            "is_true/is_false compared; a sample of the nested fixed-point families of MC_Nest is replayed; random deep formulas (<= 6 names, monotone fixed points, families of 2-3 nested fixed points with alternation, shadowing and self-supporting bodies) are parsed and evaluated by the real code and "
             "validated by Trace_Lang against Sem.",
             "TLA+ model checking (TLC) of Lang.tla + spec->impl case replay + impl->spec trace validation"),
     "C06": ("3.C06", "MC_Lang (Mode=fix): for every spine body of depth <= 1, a seed-dependent 1/40 of the 750 k depth-2 bodies (thorough: all) and simulated depth-3 spines that are semantically monotone in X "
             "(all pairs of subsets), lfp/gfp X are the least/greatest fixed point against ALL subsets incl. every pre/post-fixed point "
             "(Knaster-Tarski), reached within |Asg|+1 iterations by Sem and by the evaluator model; same bodies evaluated by the real solver "
-            "under lfp/mu/gfp/nu and three variable orders with a stall watchdog; fp(a,t) call-by-call against Bdd!FpIter (Trace_Bdd); random monotone nests via "
+            "under lfp/mu/gfp/nu and three variable orders with a stall watchdog; MC_Nest: every formula of the two- and three-binder nested families (2 400 + 7 200: all kind combinations, bodies ranging over an enclosing value through a quantifier, self-supporting inner bodies) has Ev = Canon(Sem) and is replayed through the real solver; fp(a,t) call-by-call against Bdd!FpIter (Trace_Bdd); random monotone nests via "
             "Trace_Lang.",
             "TLA+ model checking (TLC) + spec->impl case replay + impl->spec trace validation"),
     "C08": ("3.C08", "MC_Syntax: every token sequence over the 20-class alphabet up to length 5 (3.4 M; thorough 6) is decided by the grammar in TLC and by the "
